@@ -88,12 +88,22 @@ def cleanup_tmproot():
     _TMPROOT = None
 
 
+_DEPTH = [0]
+
+
 @contextlib.contextmanager
 def workdir():
-    d = tempfile.mkdtemp(prefix="c_", dir=tmproot())
+    """A scratch directory for one case. The same path is handed out again for the next case (emptied in
+    between), so that state keyed by file name - caches, memoised loaders - cannot hide behind fresh names."""
+    d = os.path.join(tmproot(), "w%d" % _DEPTH[0])
+    if os.path.isdir(d):
+        shutil.rmtree(d, ignore_errors=True)
+    os.makedirs(d)
+    _DEPTH[0] += 1
     try:
         yield d
     finally:
+        _DEPTH[0] -= 1
         shutil.rmtree(d, ignore_errors=True)
 
 
@@ -148,6 +158,50 @@ def call(fn, *a, **kw):
                     where = " at %s:%d" % (os.path.basename(fr.filename), fr.lineno)
                     break
             return ("exc", "%s: %s%s" % (type(e).__name__, e, where))
+
+
+def cli(argv, capture_stdout=False, debug=None):
+    """Run `gaftools <argv>` in-process through gaftools.__main__.main (argument parsing, validate(), error handling).
+    Returns the same tuples as call(); with capture_stdout the value of an ("ok", ...) result is the text written to stdout."""
+    import gaftools.__main__ as gm
+    from gaftools.cli import CommandLineError
+
+    class _Capture(io.StringIO):
+        def close(self):  # gaftools sort closes its writer, which is sys.stdout when no --outgaf is given
+            pass
+
+    if debug is None:
+        # the documented global --debug option must not change any result: use it on every other call
+        _CLI_CALLS[0] += 1
+        debug = _CLI_CALLS[0] % 2 == 0
+    if debug:
+        argv = ["--debug"] + list(argv)
+    buf = _Capture()
+    out = buf if capture_stdout else _Sink()
+    with contextlib.redirect_stdout(out), contextlib.redirect_stderr(_Sink()):
+        try:
+            try:
+                gm.main([str(a) for a in argv])
+                res = ("ok", buf.getvalue() if capture_stdout else None)
+            except SystemExit as e:
+                res = ("exit", e.code) if e.code not in (0, None) else ("ok", buf.getvalue() if capture_stdout else None)
+            except CommandLineError as e:
+                res = ("cle", str(e))
+            except (Violation, StepLimit, ShrinkTimeout):
+                raise
+            except BaseException as e:  # noqa
+                if isinstance(e, (KeyboardInterrupt, MemoryError)) or getattr(e, "vf_passthrough", False):
+                    raise
+                res = ("exc", "%s: %s" % (type(e).__name__, e))
+        finally:
+            root = logging.getLogger()
+            for h in list(root.handlers):
+                root.removeHandler(h)
+            logging.disable(logging.CRITICAL)
+    return res
+
+
+_CLI_CALLS = [0]
 
 
 def shorten(obj, limit=600):
